@@ -275,6 +275,27 @@ class Ctx:
         cov.setdefault("axioms", {k: v for k, v in self.axioms.items()})
         cov.setdefault("known_findings_reported", self.known_lines)
         cov.setdefault("notes", self.notes)
+        # the evidence schema types a few keys: coerce what a property module got wrong instead of writing a file
+        # that does not validate (which would count as no evidence)
+        if not isinstance(cov.get("exhaustive", False), bool):
+            cov["exhaustive_part"] = str(cov["exhaustive"])     # "this sub-domain is enumerated completely"
+            cov["exhaustive"] = False
+        for k in ("evaluations", "distinct_nontrivial", "states", "transitions", "traces_validated_against_impl",
+                  "obligations", "discharged", "programs", "disagreements_checked"):
+            if k in cov and not (isinstance(cov[k], int) and not isinstance(cov[k], bool) and cov[k] >= 0):
+                try:
+                    cov[k] = max(0, int(cov[k]))
+                except (TypeError, ValueError):
+                    cov[k + "_raw"] = str(cov.pop(k))
+        for k in ("rule", "checker_cmd", "explanation"):
+            if k in cov and not isinstance(cov[k], str):
+                cov[k] = json.dumps(cov[k], default=str)
+        if "samples" in cov and not isinstance(cov["samples"], list):
+            cov["samples"] = [cov["samples"]]
+        if "trusted_base" in cov:
+            tb = cov["trusted_base"] if isinstance(cov["trusted_base"], list) else [cov["trusted_base"]]
+            cov["trusted_base"] = [x if isinstance(x, str) else json.dumps(x, default=str) for x in tb]
+        assumptions = [a if isinstance(a, str) else json.dumps(a, default=str) for a in (assumptions or [])]
         ev = {
             "property_id": self.prop,
             "tier": self.tier,
